@@ -35,3 +35,13 @@ for d in sorted(glob.glob('/verif/seeded/*/')):
     rows.append((mid, meta["property"], meta["detected_by"], meta["missed_by"], (meta["summary"] or "")[:90]))
 for r in rows:
     print(r)
+
+with open('/verif/seeded/KILL_MATRIX.md','w') as f:
+    f.write("# Kill matrix: independently written breaking changes vs. quick checks\n\n")
+    f.write("Each change compiles and passes the 81 existing tests; `demo.rs` fails with it and passes without. ")
+    f.write("Columns: checks whose quick tier reported a violation (exit 1) / ran clean (exit 0) against the patched scratch copy.\n\n")
+    f.write("| id | written against | detected by | ran clean | change |\n|---|---|---|---|---|\n")
+    for r in rows:
+        f.write("| %s | %s | %s | %s | %s |\n" % (r[0], r[1], ' '.join(r[2]) or '—', ' '.join(r[3]) or '—', (r[4] or '').replace('|','/')))
+    det=sum(1 for r in rows if r[2]); own=sum(1 for r in rows if r[1] in r[2])
+    f.write("\n%d changes; %d detected by at least one check; %d by the check of the property they were written against.\n" % (len(rows), det, own))
